@@ -258,6 +258,7 @@ Inv_Refusal == pred.exc # "" => (LegitRefusalC16(cfg, pred.exc) \/ Ex(KfReadsRem
 Inv_NoWriteAtOrAboveOriginalSp == NoWriteAtOrAboveOriginalSp(par, St)
 Inv_NoRedZoneWriteIfLeaf == NoRedZoneWriteIfLeaf(par, St) \/ Ex(KfRedZone(cfg, NSc))
 Inv_ReadsOnlyOwnSlots == ReadsOnlyOwnSlots(par, St)
+Inv_SpAlignedOnAccess == SpAlignedOnAccess(par, St)
 Inv_RestoredDeclared == RestoredDeclared(par, St)
 Inv_NoCollateral == NoCollateral(par, St)
 Inv_FlagsRestoredIfDeclared == FlagsRestoredIfDeclared(par, St)
